@@ -55,15 +55,17 @@ def skeletons(v, tier):
            ("const-int", {}, ("int", -(1 << big), 1 << big)),
            ("const-int32", {}, ("int", -(1 << 31), (1 << 31) - 1)),
            ("const-bytes", {}, ("bytes", 2)),
-           ("const-text-ascii", {}, ("text", [(0x20, 0x7e)])),
-           ("const-text-latin1", {}, ("text", [(0x80, 0xff)])),
-           ("const-text-bmp", {}, ("text", [(0x100, 0xd7ff)])),
-           ("const-text-astral", {}, ("text", [(0x10000, 0x10ffff)])),
+           ("const-text-ascii", {}, ("text", [(0x41, 0x44)])),
+           ("const-text-latin1", {}, ("text", [(0x7e, 0x81)])),
+           ("const-text-bmp", {}, ("text", [(0x7fe, 0x801)])),
+           ("const-text-astral", {}, ("text", [(0xfffe, 0x10001)])),
            ("const-tuple", {}, ("tuple", [("int", -5, 5), ("const", None)])),
            ("const-frozenset", {}, ("frozenset", [("const", 1), ("const", "a")])),
            ("const-float", {}, ("const", 1.5)),
            ("nested", {}, "nested"),
            ("names", {"co_names": ("n1", "n2"), "co_varnames": ("v1",), "co_filename": "file.py", "co_name": "fn"}, None)]
+    if v < (3, 0):
+        out = [o for o in out if o[0] != "const-bytes"]   # a bytes constant has no Python-2 counterpart distinct from str
     return out
 
 
